@@ -21,8 +21,8 @@ struct BinaryMatMulOp: public AbstractTensor<BinaryMatMulOp<TLhs, TRhs, DIM0>,DI
     using rhs_type = typename TRhs::result_type;
     static constexpr FASTOR_INDEX lhs_rank = lhs_type::dimension_t::value;
     static constexpr FASTOR_INDEX rhs_rank = rhs_type::dimension_t::value;
-    static constexpr FASTOR_INDEX M = get_tensor_dimension_v<0,lhs_type>;
-    static constexpr FASTOR_INDEX K = get_tensor_dimension_v<1,lhs_type>;
+    static constexpr FASTOR_INDEX M = lhs_rank == 1 ? 1 : get_tensor_dimension_v<0,lhs_type>;
+    static constexpr FASTOR_INDEX K = lhs_rank == 1 ? get_tensor_dimension_v<0,lhs_type> : get_tensor_dimension_v<1,lhs_type>;
     static constexpr FASTOR_INDEX N = get_tensor_dimension_v<1,rhs_type>;
     static constexpr FASTOR_INDEX K_other = get_tensor_dimension_v<0,rhs_type>;
     static constexpr FASTOR_INDEX flop_count = M*N*K;
@@ -47,7 +47,7 @@ struct BinaryMatMulOp: public AbstractTensor<BinaryMatMulOp<TLhs, TRhs, DIM0>,DI
     }
 
     constexpr FASTOR_INLINE FASTOR_INDEX size() const {return M*N;}
-    constexpr FASTOR_INLINE FASTOR_INDEX dimension(FASTOR_INDEX i) const {return i==0 ? M : N;}
+    constexpr FASTOR_INLINE FASTOR_INDEX dimension(FASTOR_INDEX i) const {return (i==0 && lhs_rank != 1) ? M : N;}
 
     constexpr FASTOR_INLINE lhs_expr_type lhs() const {return _lhs;}
     constexpr FASTOR_INLINE rhs_expr_type rhs() const {return _rhs;}
